@@ -900,6 +900,15 @@ class Extractor:
             depth = 0
             e = None
             k = a
+            if toks[a].kind == 'ident' and toks[a].text in ('for', 'while', 'loop') and first == last:
+                # a loop statement: from the keyword to the brace that closes its body
+                j = a + 1
+                while toks[j].text != '{':
+                    if toks[j].text in ('(', '['):
+                        j = match_close(toks, j)
+                    j += 1
+                e = match_close(toks, j)
+                k = len(toks)
             while k < len(toks):
                 tx = toks[k].text
                 if tx in ('(', '[', '{'):
